@@ -380,7 +380,24 @@ func c07ChainRoundTrips(h *History, blk *BlockRecord) []Violation {
 		// the share amount was computed by the generator at the committed rate; the rate at execution can only be
 		// higher (interest booked earlier in the block), so the deposit may have bought a few shares fewer than the
 		// transaction withdraws – those extra shares are the account's own older ones and are paid at the rate
-		if minted := b.Amount.ToLegacyDec().Quo(rate).TruncateInt(); u.Amount.GT(minted) {
+		// The number of shares the deposit really bought is read from the transaction's own mint event, not
+		// recomputed from the end-of-block rate: interest booked *after* the mint (inside the same transaction)
+		// must not be mistaken for older shares.
+		minted := b.Amount.ToLegacyDec().Quo(rate).TruncateInt()
+		if ev := sdkmath.ZeroInt(); true {
+			for _, e := range blk.Txs[i].Events {
+				if e.Type == "coinbase" {
+					if c, err := sdk.ParseCoinsNormalized(attr(e, "amount")); err == nil {
+						ev = ev.Add(c.AmountOf(sstypes.GetShareDenom()))
+					}
+				}
+			}
+			if ev.IsPositive() {
+				minted = ev
+				h.Labels["c07-chain-roundtrips-mint-event"]++
+			}
+		}
+		if u.Amount.GT(minted) {
 			allow = allow.Add(rate.MulInt(u.Amount.Sub(minted)).Ceil().TruncateInt()).AddRaw(1)
 		}
 		h.Labels["c07-chain-roundtrips-judged"]++
